@@ -346,7 +346,8 @@ EvGuards(e) ==
             (IF SiKnown(e) /\ (e.ids = <<>> \/ S[e.si].inbox # <<>>)
              THEN SubStateGuards(IF e.ids = <<>> THEN S[e.si] ELSE SubAfterPost(S[e.si], e.ids), e.st) ELSE {})
       [] e.k = "s.pull" ->
-            SubPull_G(e.si, e.max, e.out, e.st.backlog, e.t) \cup
+            SubPull_G(e.si, e.max, e.out, e.st.backlog, e.t,
+                      SiKnown(e) /\ \E g \in gone : g.op \in {"Pull", "StreamOpen"} /\ g.sub = S[e.si].name) \cup
             (IF SiKnown(e)
              THEN SubStateGuards(IF S[e.si].st = "live" THEN SubAfterPull(S[e.si], e.out, e.st.backlog, e.t) ELSE S[e.si], e.st)
              ELSE {})
